@@ -24,7 +24,7 @@ RULE = ('random lenses (all shapes, mirrors, tilts; with and without vignetting 
         'non-trivial = history with >= 4 distinct call kinds; distinct = distinct case hash')
 TIERS = {'quick': dict(shards=8, cases=18), 'thorough': dict(shards=16, cases=600)}
 MIN_NONTRIVIAL = {'quick': 80, 'thorough': 1500}
-MIN_EVALS = {'lens-unchanged': 500, 'arguments-unchanged': 100, 'repeatable': 150, 'batch-independence': 60,
+MIN_EVALS = {'lens-unchanged': 500, 'arguments-unchanged': 60, 'repeatable': 150, 'batch-independence': 60,
              'arguments-unchanged-with-vignetting': 15}
 ASSUMPTIONS = ['the last-trace records of surfaces (x,y,z,L,M,N,u,opd,intensity,aoi) are documented per-trace state and excluded',
                'unseeded random pupil sampling is excluded from the repeatability clause (the statement excepts it)',
